@@ -31,6 +31,7 @@ const staleMaxArray = 16
 
 type staleSummary struct {
 	reads map[string]token.Pos // leaf -> first position read before written
+	rblk  map[string]int       // block of that read
 	via   map[string]string
 	must  map[string]bool
 }
@@ -47,6 +48,7 @@ type staleEngine struct {
 }
 
 func newStaleEngine(p *Program) *staleEngine {
+	p.Mod() // sets the model of the assembly routines that externalWrites consults
 	return &staleEngine{p: p, memo: map[staleKey]*staleSummary{}, busy: map[staleKey]bool{}}
 }
 
@@ -247,6 +249,32 @@ func (e *staleEngine) analyse(f *ssa.Function, root ssa.Value) *staleSummary {
 			case *ssa.Store:
 				if path, ok := stalePath(root, x.Addr); ok {
 					lv, wild := leavesUnder(all, path)
+					// `v := T{a: 1}`: the literal is built in a temporary and copied as a whole; the fields the
+					// literal does not name hold the zero value, which is not an assignment of the author's
+					if ld, isLd := x.Val.(*ssa.UnOp); isLd && ld.Op == token.MUL && len(path) == 0 {
+						if tmp, isAl := ld.X.(*ssa.Alloc); isAl && tmp.Comment == "complit" {
+							named := map[string]bool{}
+							for _, r := range *tmp.Referrers() {
+								if fa, ok := r.(*ssa.FieldAddr); ok {
+									for _, rr := range *fa.Referrers() {
+										if st2, ok := rr.(*ssa.Store); ok && st2.Addr == ssa.Value(fa) {
+											named["."+fieldName(fa)] = true
+										}
+									}
+								}
+							}
+							var kept []string
+							for _, l := range lv {
+								for n := range named {
+									if l == n || strings.HasPrefix(l, n+".") || strings.HasPrefix(l, n+"[") {
+										kept = append(kept, l)
+										break
+									}
+								}
+							}
+							lv = kept
+						}
+					}
 					add(staleEvent{write: true, leaves: lv, wild: wild, pos: x.Pos(), via: "store", partial: pathPartial(root, path)})
 				}
 			case *ssa.UnOp:
@@ -309,7 +337,9 @@ func (e *staleEngine) analyse(f *ssa.Function, root ssa.Value) *staleSummary {
 					lv, wild := leavesUnder(all, path)
 					if extW[i] {
 						writes = append(writes, staleEvent{write: true, leaves: lv, wild: wild, pos: x.Pos(), via: "written by " + short, partial: pathPartial(root, path)})
-					} else if cal != nil || len(externalWrites(name, len(args))) > 0 {
+					} else if (cal != nil && isCirclFunc(cal)) || len(externalWrites(name, len(args))) > 0 {
+						// a body-less circl routine, or a modelled callee that writes another argument: this
+						// one is an input. A callee outside circl without a model is unknown: no event.
 						reads = append(reads, staleEvent{leaves: lv, wild: wild, pos: x.Pos(), via: "read by " + short})
 					}
 				}
@@ -375,7 +405,7 @@ func (e *staleEngine) analyse(f *ssa.Function, root ssa.Value) *staleSummary {
 			}
 		}
 	}
-	res := &staleSummary{reads: map[string]token.Pos{}, via: map[string]string{}, must: map[string]bool{}}
+	res := &staleSummary{reads: map[string]token.Pos{}, rblk: map[string]int{}, via: map[string]string{}, must: map[string]bool{}}
 	hdrs := loopHeadersOf(f)
 	loopGen := map[int]map[string]bool{}
 	for bi := range f.Blocks {
@@ -386,6 +416,13 @@ func (e *staleEngine) analyse(f *ssa.Function, root ssa.Value) *staleSummary {
 			for l := range gen[bi] {
 				loopGen[h][l] = true
 			}
+		}
+	}
+	// an object allocated inside a loop is a new one in every iteration: nothing is carried around that loop
+	rootInLoop := map[int]bool{}
+	if al, ok := root.(*ssa.Alloc); ok && al.Block() != nil {
+		for _, h := range hdrs[al.Block().Index] {
+			rootInLoop[h] = true
 		}
 	}
 	for _, b := range f.Blocks {
@@ -408,7 +445,7 @@ func (e *staleEngine) analyse(f *ssa.Function, root ssa.Value) *staleSummary {
 					// an accumulator or a buffer filled piecewise inside a loop that writes the leaf
 					acc := false
 					for _, h := range hdrs[b.Index] {
-						if loopGen[h][l] {
+						if loopGen[h][l] && !rootInLoop[h] {
 							acc = true
 						}
 					}
@@ -428,6 +465,7 @@ func (e *staleEngine) analyse(f *ssa.Function, root ssa.Value) *staleSummary {
 			for _, l := range missing {
 				if _, ok := res.reads[l]; !ok {
 					res.reads[l] = ev.pos
+					res.rblk[l] = b.Index
 					res.via[l] = ev.via
 				}
 			}
@@ -676,6 +714,137 @@ func init() {
 				c.Clauses = append(c.Clauses, prop+".reinitshare: (*InputShare).New assigns both the leader and the helper layout on every path (an object re-initialised for another aggregator does not keep the other role's layout)")
 				checkMustWrite(c, p, prop+".reinitshare", "vdaf/prio3/internal/prio3", "InputShare", "New", []string{".leader", ".helper"}, "exactly one of the two is set, by the aggregator id")
 			}
+		}
+	}
+}
+
+// INITORDER: a function that builds a struct in a local variable does not hand it to a reader of a field that
+// the function itself only assigns afterwards.
+//
+// `share := KeyShare{si: s, Index: i}; share.twoDeltaSi = share.get2DeltaSi(); share.Players = players` runs
+// get2DeltaSi, which reads Players, while Players is still zero. Reported when a leaf of a local struct
+// variable is read (directly or by a callee, per its summary) at a point where it is not certainly written,
+// and a plain store to that same leaf follows later in the function.
+func initOrderFindings(p *Program, e *staleEngine, f *ssa.Function) []string {
+	var out []string
+	for _, b := range f.Blocks {
+		for _, in := range b.Instrs {
+			al, ok := in.(*ssa.Alloc)
+			if !ok {
+				continue
+			}
+			if _, isStruct := derefType(al.Type()).Underlying().(*types.Struct); !isStruct {
+				continue
+			}
+			s := e.analyse(f, al)
+			if len(s.reads) == 0 {
+				continue
+			}
+			all := leavesOf(derefType(al.Type()), 0)
+			// leaves assigned by a plain store of this function
+			type st struct {
+				pos token.Pos
+				blk *ssa.BasicBlock
+			}
+			stores := map[string][]st{}
+			for _, bb := range f.Blocks {
+				for _, in2 := range bb.Instrs {
+					if sto, ok := in2.(*ssa.Store); ok {
+						if path, ok := stalePath(al, sto.Addr); ok && len(path) > 0 {
+							lv, wild := leavesUnder(all, path)
+							if wild {
+								continue
+							}
+							for _, l := range lv {
+								stores[l] = append(stores[l], st{sto.Pos(), bb})
+							}
+						}
+					}
+				}
+			}
+			var ls []string
+			for l := range s.reads {
+				ls = append(ls, l)
+			}
+			sort.Strings(ls)
+			for _, l := range ls {
+				if s.via[l] == "load" {
+					continue // a direct load of the zero value is the author's own statement
+				}
+				for _, w := range stores[l] {
+					// the store follows the read: later in the same block, or in a block reachable from it
+					after := w.blk.Index == s.rblk[l] && w.pos > s.reads[l]
+					if !after && w.blk.Index != s.rblk[l] {
+						seen := map[int]bool{}
+						stk := []*ssa.BasicBlock{f.Blocks[s.rblk[l]]}
+						for len(stk) > 0 && !after {
+							x := stk[len(stk)-1]
+							stk = stk[:len(stk)-1]
+							for _, nx := range x.Succs {
+								if nx == w.blk {
+									after = true
+								}
+								if !seen[nx.Index] {
+									seen[nx.Index] = true
+									stk = append(stk, nx)
+								}
+							}
+						}
+					}
+					if after {
+						out = append(out, fmt.Sprintf("%s: field%s of the local %s is read (%s) at %s and assigned only afterwards, at %s", fname(f), l, short(derefType(al.Type()).String()), s.via[l], p.pos(s.reads[l]), p.pos(w.pos)))
+						break
+					}
+				}
+			}
+		}
+	}
+	return out
+}
+
+func checkInitOrder(c *Ctx, p *Program, rule string, prefixes []string) {
+	e := newStaleEngine(p)
+	var fs []*ssa.Function
+	for f := range p.AllFuncs {
+		if f.Blocks != nil && isCirclFunc(f) && sourceFunc(f) && !strings.Contains(funcPkgPath(f), "/internal/test") && (prefixes == nil || inScope(f, prefixes)) {
+			fs = append(fs, f)
+		}
+	}
+	sort.Slice(fs, func(i, j int) bool { return fs[i].String() < fs[j].String() })
+	nbad := 0
+	for _, f := range fs {
+		for _, m := range initOrderFindings(p, e, f) {
+			nbad++
+			c.bad(rule, fname(f)+": a struct built in a local variable is complete before a callee reads it", m+": the callee sees the zero value", p.fnPos(f))
+		}
+	}
+	c.count("initorder_functions", len(fs))
+	if nbad == 0 {
+		c.ok(rule, "no function hands a locally built struct to a reader of a field it assigns only afterwards", fmt.Sprintf("%d functions", len(fs)), "")
+	}
+}
+
+func init() {
+	for prop, pres := range map[string][]string{"C17": {"tss", "secretsharing", "math/polynomial"}, "C11": nil} {
+		prop, pres := prop, pres
+		prev := registry[prop]
+		registry[prop] = func(c *Ctx) {
+			prev(c)
+			if p := c.Prog("amd64"); p != nil {
+				c.Clauses = append(c.Clauses, prop+".initorder: no function hands a struct it builds in a local variable to a callee that reads a field the function assigns only afterwards")
+				checkInitOrder(c, p, prop+".initorder", pres)
+			}
+		}
+	}
+}
+
+func init() {
+	prev := registry["C11"]
+	registry["C11"] = func(c *Ctx) {
+		prev(c)
+		if p := c.Prog("amd64"); p != nil {
+			c.Clauses = append(c.Clauses, "C11.cachefirst: (*bls.PrivateKey).UnmarshalBinary resets the cached public key on every path, also on the refusing ones (the scalar is replaced before the key is validated)")
+			checkMustWrite(c, p, "C11.cachefirst", "sign/bls", "PrivateKey", "UnmarshalBinary", []string{".pub"}, "the decoder replaces the scalar before it can refuse")
 		}
 	}
 }
